@@ -9,6 +9,7 @@ CONSTANTS
   NP = 2
   Limit = 1
   MaxAErr = 0
+  AAMs = {TRUE}
   MaxFail = 1
   MaxAbort = 1
 SPECIFICATION SpecConn
